@@ -1,19 +1,238 @@
 package rules
 
 import (
+	"encoding/json"
+	"fmt"
+	"os"
+	"os/exec"
+	"path/filepath"
+	"sort"
+	"strings"
+	"sync"
+
 	"svcheck/internal/report"
 	"svcheck/internal/world"
 )
 
-// Thorough adds the thorough-tier obligations of a property (filled in by thorough_*.go).
+// Thorough tier (DESIGN.md section 2): on top of the quick rules
+//  (a) every seeded single-site mutant registered for the property (/verif/mutants/*.json) is
+//      applied to a scratch copy of /repo's current tree and must be reported by the named rule;
+//  (b) the property's rules are re-run with the CHA call graph (a strict over-approximation of
+//      VTA); obligations discharged under VTA but not under CHA are listed (informational).
+//
+// A mutant whose text no longer matches the current tree is skipped and counted. A mutant that
+// applies and is not reported is a defect of the checker: SELFTEST-FAIL, exit status 2.
+
+type mutantSpec struct {
+	ID         string     `json:"id"`
+	Properties []string   `json:"properties"`
+	Rule       string     `json:"rule"`
+	Expect     string     `json:"expect"` // substring of the key of the finding the rule must report
+	Edits      [][]string `json:"edits"`  // [file, old, new] or [file, old, new, nth]
+	What       string     `json:"what"`
+}
+
+type ruleJSON struct {
+	Error string      `json:"error"`
+	Obs   []report.Ob `json:"obs"`
+}
+
+func runRuleOn(repo, rule string, extraEnv ...string) (*ruleJSON, error) {
+	exe, err := os.Executable()
+	if err != nil {
+		return nil, err
+	}
+	cmd := exec.Command(exe, "-rule", rule, "-json")
+	cmd.Env = append(os.Environ(), "SVCHECK_REPO="+repo)
+	cmd.Env = append(cmd.Env, extraEnv...)
+	out, err := cmd.Output()
+	if err != nil {
+		return nil, fmt.Errorf("svcheck -rule %s on %s: %v", rule, repo, err)
+	}
+	var rj ruleJSON
+	// the JSON is the last line
+	lines := strings.Split(strings.TrimSpace(string(out)), "\n")
+	if err := json.Unmarshal([]byte(lines[len(lines)-1]), &rj); err != nil {
+		return nil, err
+	}
+	return &rj, nil
+}
+
+func applyMutant(m mutantSpec, src string) (dir string, applied bool, err error) {
+	dir, err = os.MkdirTemp(os.Getenv("TMPDIR"), "svmut.")
+	if err != nil {
+		return "", false, err
+	}
+	cp := exec.Command("rsync", "-a", "--exclude", ".git", src+"/", dir+"/")
+	if out, err := cp.CombinedOutput(); err != nil {
+		return dir, false, fmt.Errorf("copy: %v %s", err, out)
+	}
+	for _, e := range m.Edits {
+		if len(e) < 3 {
+			return dir, false, fmt.Errorf("bad edit")
+		}
+		nth := 1
+		if len(e) >= 4 {
+			fmt.Sscanf(e[3], "%d", &nth)
+		}
+		path := filepath.Join(dir, e[0])
+		b, err := os.ReadFile(path)
+		if err != nil {
+			return dir, false, nil
+		}
+		parts := strings.Split(string(b), e[1])
+		if len(parts) <= nth {
+			return dir, false, nil // text no longer present: skipped
+		}
+		s := strings.Join(parts[:nth], e[1]) + e[2] + strings.Join(parts[nth:], e[1])
+		if err := os.WriteFile(path, []byte(s), 0o644); err != nil {
+			return dir, false, err
+		}
+	}
+	return dir, true, nil
+}
+
+func loadMutants(verifDir string) ([]mutantSpec, error) {
+	files, _ := filepath.Glob(filepath.Join(verifDir, "mutants", "*.json"))
+	sort.Strings(files)
+	var all []mutantSpec
+	for _, f := range files {
+		b, err := os.ReadFile(f)
+		if err != nil {
+			return nil, err
+		}
+		var ms []mutantSpec
+		if err := json.Unmarshal(b, &ms); err != nil {
+			return nil, fmt.Errorf("%s: %v", f, err)
+		}
+		all = append(all, ms...)
+	}
+	return all, nil
+}
+
+func thoroughMutants(w *world.World, p *Prop, verifDir string) []*report.RuleResult {
+	res := &report.RuleResult{Rule: "MUT", SelfTest: true, Note: "self-test: seeded single-site mutants of the current tree (scratch copies) must each be reported by the named rule"}
+	all, err := loadMutants(verifDir)
+	if err != nil {
+		res.Err = err
+		return []*report.RuleResult{res}
+	}
+	var mine []mutantSpec
+	for _, m := range all {
+		for _, pid := range m.Properties {
+			if pid == p.ID {
+				mine = append(mine, m)
+			}
+		}
+	}
+	type outcome struct {
+		m      mutantSpec
+		status report.Status
+		msg    string
+	}
+	outs := make([]outcome, len(mine))
+	sem := make(chan struct{}, 5)
+	var wg sync.WaitGroup
+	for i, m := range mine {
+		wg.Add(1)
+		go func(i int, m mutantSpec) {
+			defer wg.Done()
+			sem <- struct{}{}
+			defer func() { <-sem }()
+			o := outcome{m: m}
+			dir, applied, err := applyMutant(m, w.Repo)
+			if dir != "" {
+				defer os.RemoveAll(dir)
+			}
+			switch {
+			case err != nil:
+				o.status, o.msg = report.Undecided, "could not prepare the mutant: "+err.Error()
+			case !applied:
+				o.status, o.msg = report.NotDecided, "the mutated text is no longer present in the current tree: skipped"
+			default:
+				rj, err := runRuleOn(dir, m.Rule)
+				if err != nil {
+					o.status, o.msg = report.Undecided, err.Error()
+					break
+				}
+				hit := rj.Error != "" && strings.Contains(rj.Error, "load/type errors")
+				if hit {
+					o.status, o.msg = report.NotDecided, "mutant does not compile on the current tree: skipped"
+					break
+				}
+				found := ""
+				for _, ob := range rj.Obs {
+					if (ob.St == "finding" || ob.St == "undecided") && strings.Contains(ob.Key, m.Expect) {
+						found = ob.Key
+					}
+				}
+				if rj.Error != "" && found == "" {
+					found = "rule error: " + rj.Error
+				}
+				if found != "" {
+					o.status, o.msg = report.Discharged, fmt.Sprintf("%s: reported by %s as %s", m.What, m.Rule, found)
+				} else {
+					o.status, o.msg = report.Finding, fmt.Sprintf("%s: applied to a scratch copy, rule %s did not report a finding matching %q", m.What, m.Rule, m.Expect)
+				}
+			}
+			outs[i] = o
+		}(i, m)
+	}
+	wg.Wait()
+	for _, o := range outs {
+		res.Add(o.status, "mutant:"+o.m.ID, strings.Join(firstEdit(o.m), ":"), o.msg)
+	}
+	return []*report.RuleResult{res}
+}
+
+func firstEdit(m mutantSpec) []string {
+	if len(m.Edits) > 0 && len(m.Edits[0]) > 0 {
+		return []string{m.Edits[0][0]}
+	}
+	return nil
+}
+
+// thoroughCHA re-runs the property's rules under the CHA call graph and lists the obligations
+// whose verdict differs (informational: CHA over-approximates, so extra findings are expected to
+// be resolution artefacts; a finding that disappears would be a VTA soundness question).
+func thoroughCHA(w *world.World, p *Prop, verifDir string) []*report.RuleResult {
+	res := &report.RuleResult{Rule: "CHA", SelfTest: true, Note: "cross-check: the property's call-graph dependent rules re-run with CHA instead of VTA; differing verdicts are listed, not judged"}
+	cgRules := map[string]bool{"L1": true, "L2": true, "P1": true, "DT": true, "N1": true}
+	for _, rr := range p.Rules {
+		if !cgRules[rr.ID] {
+			continue
+		}
+		vt := Run(w, rr.ID)
+		rj, err := runRuleOn(w.Repo, rr.ID, "SVCHECK_CG=cha")
+		if err != nil {
+			res.Skip("rule:"+rr.ID, "-", "CHA re-run failed: "+err.Error())
+			continue
+		}
+		st := map[string]string{}
+		for _, ob := range rj.Obs {
+			st[ob.Key] = ob.St
+		}
+		diff := 0
+		for _, ob := range vt.Obs {
+			if s, ok := st[ob.Key]; ok && s != ob.St {
+				diff++
+				res.Skip(fmt.Sprintf("rule:%s|%s", rr.ID, ob.Key), ob.Pos, fmt.Sprintf("VTA: %s, CHA: %s", ob.St, s))
+			}
+		}
+		res.OK("rule:"+rr.ID, "-", fmt.Sprintf("re-run under CHA: %d obligations, %d with a different verdict (listed as not-decided entries)", len(rj.Obs), diff))
+	}
+	return []*report.RuleResult{res}
+}
+
+var thoroughHooks []func(w *world.World, p *Prop, verifDir string) []*report.RuleResult
+
+// Thorough adds the thorough-tier results of a property.
 func Thorough(w *world.World, p *Prop, verifDir string) []*report.RuleResult {
 	var out []*report.RuleResult
-	for _, f := range thoroughHooks {
+	for _, f := range []func(w *world.World, p *Prop, verifDir string) []*report.RuleResult{thoroughMutants, thoroughCHA} {
 		if r := f(w, p, verifDir); r != nil {
 			out = append(out, r...)
 		}
 	}
 	return out
 }
-
-var thoroughHooks []func(w *world.World, p *Prop, verifDir string) []*report.RuleResult
